@@ -43,8 +43,15 @@ fn child() {
         let r = surf::run_canon(&vm, &format!("p{}", i), src);
         if r.starts_with("panic ") {
             // identify a panic by its site, not by its message
+            // identify a panic by its file and the first words of its message (line numbers
+            // move with every edit of the file; messages embed addresses and generated names)
+            let msg = normalize(r.trim_start_matches("panic ").trim_matches('"'));
+            let words: Vec<&str> = msg.split_whitespace().take(3).collect();
             match gv::last_panic_location() {
-                Some(loc) => format!("panic @{}", loc),
+                Some(loc) => {
+                    let file = loc.rsplitn(2, ':').last().unwrap_or("?").to_string();
+                    format!("panic @{}:{}", file, words.join("_"))
+                }
                 None => r,
             }
         } else {
